@@ -110,6 +110,17 @@ def rand_tracks(rng, skip_checks, allow_huge=True):
             msgs = msgs + [msgs[rng.randrange(len(msgs))] for _ in range(rng.randrange(1, 4))]
             if rng.random() < 0.3:
                 msgs = msgs * 2
+        if rng.random() < 0.2:
+            # meta events whose values are zero or empty where the default is not
+            t_, vals = rng.choice((('set_tempo', {'tempo': 0}), ('time_signature', {'numerator': 0, 'denominator': 1, 'clocks_per_click': 0,
+                                                                                    'notated_32nd_notes_per_beat': 0}),
+                                   ('sequencer_specific', {'data': ()}), ('text', {'text': ''}), ('key_signature', {'key': 'A'}),
+                                   ('smpte_offset', {'frame_rate': 24, 'hours': 0, 'minutes': 0, 'seconds': 0, 'frames': 0, 'sub_frames': 0})))
+            zero = MetaMessage(t_)
+            for k_, v_ in vals.items():             # assigned after construction (as a file reader or an editor does)
+                setattr(zero, k_, v_)
+            zero.time = rng.choice((0, 1, 50))
+            msgs.insert(rng.randrange(len(msgs) + 1), zero)
         if rng.random() < 0.15:
             # text that only exists outside latin1 (a file loaded with another charset, lyrics typed in by the user)
             msgs.insert(rng.randrange(len(msgs) + 1),
